@@ -4,7 +4,24 @@ import mir_check
 
 def run_mir(tier, seed):
     import dn
-    return mir_check.run_obligations(dn.ALL)
+    import time
+    records, viol, inc = mir_check.run_obligations(dn.ALL)
+    # translator validation: random concrete edit histories are pushed through the encoding (the MIR of new/push/remove/get/iter/next executed by
+    # the engine on concrete values) and through the real code (a generated program linked against /repo); every observation must agree.
+    t0 = time.time()
+    try:
+        fns, _ = mir_check.mir_functions(True)
+        n, bad = dn.validate_translator(fns, str(mir_check.REPO), 1000 + seed, n_hist=24 if tier == "quick" else 96)
+        rec = {"engine": "mirsmt", "name": "translator_validation", "result": "pass" if not bad else "inconclusive", "functions": [],
+               "validated_traces": n, "steps_per_trace": 7, "disagreements": bad[:3], "wall_s": round(time.time() - t0, 1),
+               "what": "concrete edit histories executed by the MIR encoding and by the real code agree on every return value and enumeration"}
+        records.append(rec)
+        if bad:
+            inc.append(f"translator_validation: the encoding and the real code disagree on {len(bad)} of {n} concrete histories, e.g. {bad[0]}")
+    except Exception as e:
+        records.append({"engine": "mirsmt", "name": "translator_validation", "result": "inconclusive", "reason": repr(e), "functions": []})
+        inc.append(f"translator_validation: {e!r}")
+    return records, viol, inc
 
 
 def spec(tier, seed):
